@@ -48,12 +48,13 @@ P("C19", [("K13", None), ("K13O", None), ("V15", None)],
   "Assumed: the forest handed to set_priorities is a DAG with edges from less to more special impls (the disjoint/specializes solver queries are not verified); petgraph and indexmap as compiled by Kani.",
   "contract-based verification with Kani: harness contracts + contract stub (kani::stub) for the callee, graphs enumerated concretely")
 
-P("C05", [("V10", None), ("V3", None), ("V18", None), ("K11", r"^k11_stack")],
+P("C05", [("V10", None), ("V3", None), ("V18", None), ("V23", None), ("K11", r"^k11_stack")],
   "model_checking",
   "Partial (function-level links): Verus proves on the verbatim text that exactly the goals `T: AutoTrait`, `T: #[coinductive] Trait`, `WellFormed(T: Trait)` and universal "
   "quantifications of those are treated coinductively (every other goal kind is inductive), that coinductive goals start the fixed-point iteration at the top "
   "(Unique, trivially true, over the goal's own binders) and inductive ones at NoSolution, that iteration stops only when the answer repeats or is ambiguous, and that solve_goal, on finding a goal already in the search graph, returns that node's answer and ALWAYS lowers the "
-  "caller's minimums to the node's links (so an ancestor that relied on a provisional answer is never cached as if self-contained) and rejects mixed cycles (all Verus, unbounded); "
+  "caller's minimums to the node's links (so an ancestor that relied on a provisional answer is never cached as if self-contained) and rejects mixed cycles, and that solve_new_subgoal returns with the goal's stored answer equal to what its last iteration produced, that answer being a fixed point "
+  "(reached_fixed_point(assumed, produced)) unless the iteration did not depend on the goal's own provisional answer (all Verus, unbounded, partial correctness for the loop); "
   "Kani shows the cycle check rejects a cycle exactly when it mixes inductive and coinductive stack entries (BOUNDED: <= 4/6 entries).",
   "Not reached: push_auto_trait_impls / constituent types (iterator+closure code), delayed subgoals in the SLG engine, cache rollback. Assumed: finite goals, trait flags abstract.",
   "contract-based deductive verification: Verus on mechanically extracted function text")
@@ -151,11 +152,11 @@ P("C11", [("K12", r"_q"), ("V5", None), ("V4", None), ("V19", None)],
   "The SLG side of the second sentence (tables persisting across interrupted solves) is a history property and is not reached (see C10).",
   "contract-based verification: Kani harness contract over enumerated streams + Verus on extracted text")
 
-P("C01", [("K12", None), ("V1", None), ("V3", None), ("V18", None)],
+P("C01", [("K12", None), ("V1", None), ("V3", None), ("V18", None), ("V23", None)],
   "model_checking",
   "Partial (aggregation contract only): Kani runs the real make_solution on every answer stream up to the bound: Unique iff exactly one unconditional answer, 'no solution' iff the "
   "stream is empty, nothing definite after a flounder or an interruption, the Unique payload is the stream's answer unchanged; Verus proves combine never manufactures a Unique, "
-  "that the recursive fixed point starts from bottom/top as the semantics requires, and that the tabling step solve_goal records every dependency on a provisional answer (V18). BOUNDED (stream length <= 2/3); Verus parts unbounded.",
+  "that the recursive fixed point starts from bottom/top as the semantics requires, and that the tabling step solve_goal records every dependency on a provisional answer (V18), and that the answer solve_new_subgoal leaves for a goal is a fixed point of its last iteration unless that iteration did not depend on the goal itself (V23). BOUNDED (stream length <= 2/3); Verus parts unbounded.",
   "Assumed: the answer stream itself is sound and complete, i.e. SLG resolution and the recursive search against the program's logical meaning — the bulk of C01 — are NOT verified "
   "(no function of chalk has the logical meaning as an argument or view; logic.rs is out of reach of both tools).",
   "contract-based verification: Kani harness contract over enumerated streams + Verus on extracted text")
@@ -179,8 +180,17 @@ P("C12", [("V22", None)],
   "SolveState on unwinding; the stack invariant 'every entry below the top holds its suspended strand'.",
   "contract-based deductive verification: Verus on mechanically extracted function text, in-place loop invariant with termination measure, proved sequence lemmas")
 
+P("C02", [("V23", None), ("V3", None), ("V17", None)],
+  "proof",
+  "Partial (two of the four mechanisms named in the anchors, recursive solver): Verus proves on the verbatim text that the fixed-point iteration of solve_new_subgoal starts from 'no solution' for an "
+  "inductive goal (initial_value, V3) and returns only with an answer that is a fixed point of its last iteration - or that did not depend on the goal itself - stored unchanged for the goal (V23); that the "
+  "iteration stops exactly when the answer repeats or is ambiguous (reached_fixed_point, V3); and that the size limit acts as stated: an oversize subgoal is never tabled / an oversize obligation is marked "
+  "cannot-prove, nothing else is (V17). Unbounded; partial correctness for the loop.",
+  "Not reached: 'never Ambiguous for goals without unknowns' as a whole-search statement - Fulfill's obligation loop (mut self, iterator code, P25), the SLG side (on_no_strands_left, clear_strands_after_cycle: "
+  "closures over &mut self), and that the answer is the one the logical meaning dictates (C01).",
+  "contract-based deductive verification: Verus on mechanically extracted function text, ghost history in the abstract search graph, in-place loop invariant")
+
 # ---- not (yet) claimed
-NOT_APPLICABLE['C02'] = "completeness of proof search within size limits is a whole-search statement; the mechanisms named in the anchors (on_no_strands_left, clear_strands_after_cycle, solve_new_subgoal, Fulfill::fulfill) log, use FxHashMap tables and custom Index impls (DESIGN P5/P6/P10) and none has a per-function contract implying 'never Ambiguous'"
 NOT_APPLICABLE['C04'] = 'relational property between two whole solvers; no function has a contract that mentions both'
 NOT_APPLICABLE['C06'] = 'the closure is computed by program_clauses_for_env (hash sets, iterator adaptors, logging) and a TypeVisitor; no extractable function carries the property'
 NOT_APPLICABLE['C10'] = 'property over histories of solver calls; Forest.tables / SearchGraph / Cache are FxHashMap-backed and logged (P5/P6/P10)'
